@@ -501,7 +501,7 @@ class SimpleT2Decompiler(object):
         numOps = numBlends * (self.numRegions + 1)
         if self.blender is None:
             del self.operandStack[
-                -(numOps - numBlends) :
+                len(self.operandStack) - (numOps - numBlends) :
             ]  # Leave the default operands on the stack.
         else:
             argi = len(self.operandStack) - numOps
